@@ -491,3 +491,13 @@ Print Assumptions c01_spe_lambda_other_divisor_refuted.
 Example c01_spe_lambda_refuted_nonvacuous :
   1 <= 2008 /\ exists l, spe_lambda_final 3 3 = Some l /\ (l == 8 # 27)%Q.
 Proof. split; [lia|]. eexists. split; [vm_compute; reflexivity|reflexivity]. Qed.
+
+(* Recursion depth: every self-recursive function the translator finds in the headers is in the list of functions whose
+   depth a C01 termination theorem bounds or which only forward to an overload (Shapes_Src.rec_allowed); a new one
+   (a depth-first search written recursively has depth ~ N) re-opens c01_src_facts_tied. *)
+Theorem c01_recursion_allowlisted : forall x, In x (f_recursive gen_facts) -> In x rec_allowed.
+Proof. exact src_recursion_allowlisted. Qed.
+Print Assumptions c01_recursion_allowlisted.
+
+Example c01_recursion_nonvacuous : f_recursive gen_facts <> [].
+Proof. discriminate. Qed.
